@@ -591,9 +591,12 @@ fn observe<W: WX>(prop: &str, s: &St<W>, viol: &mut Vec<Viol>) {
             let mut b = real(s);
             let r = guard(|| b.push(v));
             rej("BitFieldVec::push", format!("push({v:?}) with width {w}"), b, r.is_panic());
-            let mut b = real(s);
-            let r = guard(|| b.resize(n + 2, v));
-            rej("BitFieldVec::resize", format!("resize({}, {v:?}) with width {w}", n + 2), b, r.is_panic());
+            // a value that does not fit is rejected whatever the new length (growing, same, shrinking, empty)
+            for nl in [n + 2, n, n / 2, 0] {
+                let mut b = real(s);
+                let r = guard(|| b.resize(nl, v));
+                rej("BitFieldVec::resize", format!("resize({nl}, {v:?}) with width {w} and len {n}"), b, r.is_panic());
+            }
         }
     }
 }
